@@ -74,6 +74,10 @@ def check(repo: Repo, rep: Report) -> None:
             ok = ok and k == ["CHECK", "APPEND"] and SC.ret_kind(pth) == "InnerSubscription"
         elif stopped is True:
             ex = pth.decided("ex")
+            if ex is None:
+                ex = pth.decided("ex is not None")
+            if ex is None and pth.decided("ex is None") is not None:
+                ex = not pth.decided("ex is None")
             hv = pth.decided("has_value")
             if ex:
                 want = ["ERR:ex"]
@@ -94,3 +98,4 @@ def check(repo: Repo, rep: Report) -> None:
     rep.ob("A2-final-value", cls, "_on_error_core inherited from Subject (error delivers no value)", cls.child("_on_error_core") is None,
            "AsyncSubject overrides _on_error_core (not analysed): the error path may deliver a value")
     SC.rule_dispose(rep, cls)
+    SC.rule_exception_identity(rep, repo.fn(A, "AsyncSubject._subscribe_core"))
